@@ -183,4 +183,7 @@ PROPS["C10"]["assumptions"] = PROPS["C10"]["assumptions"][:1] + ["two builds: C+
 # C07 for the epoll context's timers (kernel time, not virtual): the C14 epoll unit's concurrent timer group with remote stops
 PROPS["C07"]["units"].append(Unit("c14_epoll", "harness/c14_epoll.cpp", cfg="d17", max_size=120, pin=True, shards=8, quick=(25, 300000), thorough=(300, 20000000)))
 
+# C07 for io_uring_context's timers under schedule control (remote stops around expiry, never-early oracle)
+PROPS["C07"]["units"].append(Unit("c14_uring_ds", "harness/c14_uring_ds.cpp", cfg="d17", max_size=120, pin=True, shards=8, quick=(15, 300000), thorough=(200, 20000000)))
+
 PROPS["C08"]["units"] = PROPS["C08"]["units"] + [Unit("c08_scope_v0", "harness/c08_scope_v0.cpp", cfg="d17", max_size=120, pin=True, shards=8, quick=(15, 300000), thorough=(240, 20000000))]
